@@ -93,7 +93,7 @@ func (c C19) Run(t *tape.Tape, opt core.RunOpt) (res core.Result) {
 		env.log = env.log[:0]
 		switch k := t.Draw(10); {
 		case k < 4: // subscribe
-			sb := &workload.SimSub{ID: nextSid, Topic: topic(), SelIndex: t.Draw(len(workload.SubSelections)), Alias: t.Bool(1, 3), Named: t.Bool(1, 3)}
+			sb := &workload.SimSub{ID: nextSid, Topic: topic(), SelIndex: t.Draw(len(workload.SubSelections)), Alias: t.Bool(1, 3), Named: t.Bool(1, 3), UseVar: t.Bool(1, 2)}
 			nextSid++
 			if t.Bool(1, 3) {
 				sb.FailFrom = 1 + t.Draw(3)
